@@ -112,6 +112,20 @@ def run(ctx):
                 grp[mode] = c
                 cases.append(c)
             groups.append((grp, elements_of(log), None, subset))
+    # deep trees: a staircase (a fork at every level) and a long chain, far deeper than any indentation table
+    for depth in (6, 11, 12, 13, 21, 40):
+        stair = [b'/'.join([b'c%d' % j for j in range(k + 1)] + [b'item']) for k in range(depth)]
+        chain = [b'/'.join(b'd%d' % j for j in range(depth + 1))]
+        for subset in (stair, chain, stair + chain):
+            ents = [(p, Qty(b'1', Fraction(1))) for p in subset]
+            log = [(__import__('datetime').date(2021, 1, 24), ents, [])]
+            files = {b'food.yaml': b'', b'log.yaml': g.render_log(log, varied=False)}
+            grp = {}
+            for mode, s in MODES:
+                c = app(['bal'], files, s=s, kind=mode)
+                grp[mode] = c
+                cases.append(c)
+            groups.append((grp, elements_of(log), None, tuple(subset)))
     ctx.exhaustive = (ctx.tier != 'quick')
     # random logs and books, with and without a single element
     for _ in range(300 if ctx.tier == 'quick' else 1200):
